@@ -18,6 +18,7 @@ func init() {
 	gens["Src_context.v"] = genGoLiteContext
 	gens["Src_echo.v"] = genGoLiteEcho
 	gens["Src_mw_handlers.v"] = genGoLiteMiddleware
+	gens["Src_gzip.v"] = genGoLiteGzip
 }
 
 // innerHandler finds the innermost function literal of shape func(c echo.Context) error inside fd.
@@ -87,8 +88,9 @@ type goliteCfg struct {
 	consts map[string]string
 	recv   string
 	locals map[string]bool
-	tail   map[string]bool // return f(...): f is called (an event) and its result returned
-	pre    []string        // external calls met inside an expression: hoisted in front of the statement
+	tail   map[string]bool      // return f(...): f is called (an event) and its result returned
+	grow   map[string][2]string // external call -> (cell, amount cell): the call makes the cell grow (bytes.Buffer.Write: Len() grows by len(b))
+	pre    []string             // external calls met inside an expression: hoisted in front of the statement
 	ntmp   int
 }
 
@@ -304,7 +306,11 @@ func (g *goliteCfg) stmt(s ast.Stmt) ([]string, error) {
 					xs = append(xs, g.str(id.Name))
 				}
 				args, _ := g.exprs(ce.Args)
-				return []string{fmt.Sprintf("SCall [%s] %s %s", strings.Join(xs, "; "), g.str(lit(ce.Fun)), args)}, nil
+				out := []string{fmt.Sprintf("SCall [%s] %s %s", strings.Join(xs, "; "), g.str(lit(ce.Fun)), args)}
+				if gr, ok := g.grow[lit(ce.Fun)]; ok {
+					out = append(out, fmt.Sprintf("SFSet %s (EAdd (EField %s) (EField %s))", g.str(gr[0]), g.str(gr[0]), g.str(gr[1])))
+				}
+				return out, nil
 			}
 		}
 		if len(v.Lhs) == 2 && len(v.Rhs) == 1 {
@@ -550,4 +556,60 @@ func genGoLiteContext(repo string) (string, error) {
 		return "", err
 	}
 	return goliteHeader + "(* context.go: context.Reset - what a recycled context forgets *)\n" + s, nil
+}
+
+// deferredClosure finds the body of `defer func() { ... }()` inside a function literal.
+func deferredClosure(fl *ast.FuncLit) *ast.FuncLit {
+	var found *ast.FuncLit
+	ast.Inspect(fl.Body, func(n ast.Node) bool {
+		if ds, ok := n.(*ast.DeferStmt); ok {
+			if dl, ok := ds.Call.Fun.(*ast.FuncLit); ok && found == nil {
+				found = dl
+			}
+		}
+		return true
+	})
+	return found
+}
+
+func genGoLiteGzip(repo string) (string, error) {
+	f, err := parseFile(repo, "middleware/compress.go")
+	if err != nil {
+		return "", err
+	}
+	out := goliteHeader + "(* middleware/compress.go: gzipResponseWriter.WriteHeader, Write, Flush and the deferred finaliser of the Gzip handler.\n   Cells: the writer's fields, w.buffer.Len(), len(b), header lookups.  The pooled buffer is bytes.Buffer: its Write is\n   external and makes w.buffer.Len() grow by len(b) (assumed of the library).  Header changes, writes to the gzip stream and\n   to the underlying writer are events. *)\n"
+	cells := map[string]bool{"w.buffer.Len()": true, "len(b)": true, "w.Header().Get(echo.HeaderContentType)": true,
+		"res.Header().Get(echo.HeaderContentEncoding)": true}
+	for _, nm := range []string{"WriteHeader", "Write", "Flush"} {
+		fd := findFunc(f, "*gzipResponseWriter", nm)
+		if fd == nil {
+			return "", fmt.Errorf("gzipResponseWriter.%s not found", nm)
+		}
+		s, err := goliteFunc(fd, "gzip_"+strings.ToLower(nm), goliteCfg{ignore: map[string]bool{}, cells: cells,
+			extern: map[string]bool{"w.buffer.Write": true, "w.Writer.Write": true, "http.NewResponseController(w.ResponseWriter).Flush": true},
+			grow:   map[string][2]string{"w.buffer.Write": {"w.buffer.Len()", "len(b)"}},
+			tail:   map[string]bool{"w.Writer.Write": true}})
+		if err != nil {
+			return "", err
+		}
+		out += s
+	}
+	fd := findFunc(f, "", "GzipWithConfig")
+	if fd == nil {
+		return "", fmt.Errorf("GzipWithConfig not found")
+	}
+	fl := innerHandler(fd)
+	if fl == nil {
+		return "", fmt.Errorf("GzipWithConfig: no handler closure found")
+	}
+	dl := deferredClosure(fl)
+	if dl == nil {
+		return "", fmt.Errorf("GzipWithConfig: no deferred finaliser found")
+	}
+	s, err := goliteFunc(&ast.FuncDecl{Name: fd.Name, Type: dl.Type, Body: dl.Body}, "gzip_finish", goliteCfg{ignore: map[string]bool{}, cells: cells,
+		recv: "grw", extern: map[string]bool{}})
+	if err != nil {
+		return "", err
+	}
+	return out + s, nil
 }
